@@ -165,6 +165,15 @@ class C17(Check):
                     return ast.Call(ast.Name(node.func.attr, ast.Load()), [node.func.value] + list(node.args), [])
                 return node
 
+        for NQ in NAMES_QS:
+            self._names_for(NQ, i, j, Ref, res)
+            if res["viol"]:
+                break
+        return res
+
+    def _names_for(self, NAMES_Q, i, j, Ref, res):
+        from func_adl.ast.func_adl_ast_utils import change_extension_functions_to_calls
+
         def want(names):
             return ast.dump(Ref(list(names)).visit(qsem.parse_expr(NAMES_Q)))
 
@@ -250,6 +259,8 @@ def _shared_tree(k):
 N_SHARED = 7
 NAME_LISTS = [["Select"], ["Select", "Where"], ["Count"], [], ["First", "Count", "Select", "Where"], ["Foo"]]
 NAMES_Q = "ds.Select(lambda e: e.jets.Where(lambda j: j.pt > 1).Count()).Foo(1).First()"
+# queries without any of the default operator names
+NAMES_QS = [NAMES_Q, "jets.Foo(other)", "jets.Foo(lambda j: j.trks.Foo(1)).bar(2)", "f(jets.Foo(1), k=jets.Foo(2))"]
 
 
 RECEIVERS = ["x", "x.y", "x.y.z", "f(x)", "x.m()", "x[0]", "x['k']", "x[1:2]", "(a if c else b)", "(a, b)[0]", "[a, b][1]",
